@@ -40,9 +40,12 @@ def bounds(tier):
 
 def cases(shard, tier):
     d, src = shard['dtype'], shard['src']
+    casts = c03.CASTS[d][:2] if tier == 'quick' else c03.CASTS[d]
+    chunks = [None, 1] if tier == 'quick' else [None, 1, 2, 3]
+    wins = [None, (1, 2)] if tier == 'quick' else [None, (1, 2), (0, 2), (1, 3), (2, 3)]
     layouts = ['C', 'F', 'strided', 'readonly', 'view'] if src in ('inline', 'dict') else ['C', 'readonly']
     for bo, shape, layout, cast, chunk, win, fail in itertools.product(
-            ['<', '>'], ['s', 'w2'], layouts, c03.CASTS[d][:2], [None, 1], [None, (1, 2)],
+            ['<', '>'], ['s', 'w2'], layouts, casts, chunks, wins,
             ['none', 'bad-second-channel', 'bad-window']):
         yield {'dtype': d, 'src': src, 'bo': bo, 'shape': shape, 'layout': layout, 'cast': cast, 'chunk': chunk,
                'win': win, 'fail': fail}
